@@ -4,8 +4,9 @@
   Property theorems only.
   Model: Cello/Hdr.lean (`step`, `run`: births, dealloc/del, the guarded String/Tuple operations, the containers' element
   births and moves, the collector's registry and sweep).  Source-derived tables: CelloGen/Hdr.lean.
-  Lemmas: CelloProofs/Lemmas/Hdr.lean (invariant `WF`), HdrBody.lean (element headers), HdrStep.lean (`wf_run`),
-  HdrKeep.lean (`stable_run`: headers never change, non-heap objects are never released).
+  Lemmas: CelloProofs/Lemmas/Hdr.lean (invariant `WF`), HdrBody.lean (element headers), HdrRelease.lean (the collector's
+  release paths: `finalise_spec`, `gcRem_spec`, `sweepLoop_spec`, `collect_spec` — nested deletions, rings, every pending
+  order), HdrStep.lean (`wf_run`), HdrKeep.lean (`stable_run`: headers never change, non-heap objects are never released).
 
   Every model theorem is proved for all configurations that are `Sound`; `C19_current_source_sound` decides that the
   configuration read from the source that is in /repo now is `Sound`, and the `…_current` corollaries instantiate it.
@@ -22,7 +23,10 @@ namespace Cello.Hdr
     `dealloc` refuses static, stack and data objects with ResourceError before it fills or frees the block and does not
     refuse heap objects; every reallocating function of String.c / Tuple.c tests `AllocStack or AllocStatic` and throws
     ValueError before its first mutation; objects are registered with the collector only by `alloc_by` (standard and
-    root, not raw), after `header_init(.., AllocHeap)`; `del` goes through the collector.
+    root, not raw), after `header_init(.., AllocHeap)`; `del` goes through the collector; on every release path of the
+    collector (GC_Sweep's release loop, both branches of GC_Rem_Ptr) the object is un-listed — pending slot cleared,
+    registry entry erased — *before* `dealloc(destruct(..))` runs, and GC_Sweep takes its victims out of the registry
+    before it finalises the first of them.
     Decided over the tables regenerated from the source on every run. -/
 theorem C19_current_source_sound : Config.current.Sound = true := by decide
 
@@ -32,6 +36,17 @@ theorem C19_current_source_sound : Config.current.Sound = true := by decide
     sibling reallocates too. Moving a guard after a `memmove`/`realloc`/store, weakening it or dropping it breaks this. -/
 theorem C19_realloc_guarded :
     ∀ p ∈ CelloGen.Hdr.reallocFns, (guardFromEvents p.2).Protects Config.current = true := by decide
+
+/-- **the collector un-lists before it finalises** — the statements of GC_Sweep's release loop, of the two branches of
+    GC_Rem_Ptr and of Box_Del, in the order the source has them.  `C19_release_once` and the theorems of section D depend
+    on this order (through `Config.Sound`): with `dealloc(destruct(item))` ahead of `gc->freelist[i] = NULL` an object
+    whose destructor reaches it again through a ring of Boxes is finalised twice (`C19_late_clear_refuted`). -/
+theorem C19_collector_unlists_before_finalising :
+    CelloGen.Hdr.sweepLoopEvents = [.test, .clear, .finalise] ∧
+    CelloGen.Hdr.sweepPhases = [.reset, .collect, .release, .reset] ∧
+    CelloGen.Hdr.remPendingEvents = [.test, .clear, .finalise, .ret] ∧
+    CelloGen.Hdr.remRegistryEvents = [.erase, .count, .finalise, .ret] ∧
+    CelloGen.Hdr.boxDelEvents = [.test, .finalise, .clear] := by decide
 
 /-- the reallocating functions the model mirrors are all in that table (none was renamed away) -/
 theorem C19_realloc_table_covers_model :
@@ -64,12 +79,18 @@ theorem C19_typeof_and_dealloc_shape :
 /-! ## B. every reachable state is well formed -/
 
 /-- **Invariant, for all histories**: starting from the empty state, after any sequence of operations (births by every
-    route, copies, freeing operations on objects and on embedded objects, in-place operations, collector runs) every
+    route, copies, Boxes re-pointed at will — chains, rings, a Box that owns itself —, freeing operations on objects and on
+    embedded objects with whatever their destructors delete in turn, in-place operations, forced and threshold collector
+    runs with any set of victims in any pending order) every
     element/key/value of every container carries the container's declared type, class `data` and the magic number;
     every registered handle is a live heap object; every released handle was a heap object and is dead; nothing was
     released twice; handles are distinct. -/
 theorem C19_reachable_wf (cfg : Config) (hs : cfg.Sound = true) (ops : List Op) : WF cfg (run cfg St.init ops) :=
-  wf_run (facts_of_sound hs) ops (wf_init cfg)
+  (wf_run (facts_of_sound hs) ops (wf_init cfg) (noPend_of_nil rfl)).1
+
+/-- between operations no sweep is under way: the pending list is empty (every collection ran to its end) -/
+theorem C19_reachable_no_pending (cfg : Config) (hs : cfg.Sound = true) (ops : List Op) : NoPend (run cfg St.init ops) :=
+  (wf_run (facts_of_sound hs) ops (wf_init cfg) (noPend_of_nil rfl)).2
 
 theorem C19_reachable_wf_current (ops : List Op) : WF Config.current (run Config.current St.init ops) :=
   C19_reachable_wf Config.current C19_current_source_sound ops
@@ -390,9 +411,10 @@ theorem C19_registry_heap_only (cfg : Config) (hs : cfg.Sound = true) (ops : Lis
 /-- **`del` of something the collector does not manage does nothing**: a stack, static or embedded object (never
     registered, by the invariant) is left exactly as it is — the model's state is unchanged. -/
 theorem C19_del_of_unregistered_is_noop (cfg : Config) (hs : cfg.Sound = true) (s : St) (id : Nat) (o : Obj)
-    (hnr : s.isReg id = false) (f : FreeOp) (hf : f = .del ∨ f = .delRoot) : freeObj cfg s f id o = (s, .ok) := by
+    (hnp : NoPend s) (hnr : s.isReg id = false) (f : FreeOp) (hf : f = .del ∨ f = .delRoot) : freeObj cfg s f id o = (s, .ok) := by
   have F := facts_of_sound hs
-  rcases hf with h | h <;> subst h <;> simp [freeObj, F.delViaCollector, hnr]
+  have hc : some id ∉ s.pending := hnp id
+  rcases hf with h | h <;> subst h <;> simp [freeObj, F.delViaCollector, gcRem, hnr, hc]
 
 theorem C19_del_of_embedded_is_noop (cfg : Config) (hs : cfg.Sound = true) (e : Elem) (f : FreeOp)
     (hf : f = .del ∨ f = .delRoot) : freeElem cfg f e = (e, .ok) := by
@@ -400,65 +422,162 @@ theorem C19_del_of_embedded_is_noop (cfg : Config) (hs : cfg.Sound = true) (e : 
   rcases hf with h | h <;> subst h <;> simp [freeElem, F.delViaCollector]
 
 /-- **a collector run frees only registered heap objects and leaves everything else exactly as it was**: in a reachable
-    state, whatever set of victims is declared unreachable, every released handle was registered (hence a live heap
-    object), and every handle whose class is not `heap` keeps its object unchanged. -/
-theorem C19_sweep_frees_only_heap (cfg : Config) (hs : cfg.Sound = true) (ops : List Op) (victims : List Nat) :
+    state, whatever set of victims is declared unreachable and whatever the layout of the registry (`order`), every block
+    released — by the sweep itself or by a destructor running inside it — belonged to a registered, hence live heap,
+    object, and every handle whose class is not `heap` keeps its object unchanged. -/
+theorem C19_sweep_frees_only_heap (cfg : Config) (hs : cfg.Sound = true) (ops : List Op) (victims order : List Nat) :
     let s := run cfg St.init ops
-    (∀ id ∈ (s.sweep cfg victims).2, ∃ o, s.get id = some o ∧ o.hdr.alloc = cfg.cHeap ∧ o.live = true) ∧
-    (∀ k o, s.get k = some o → o.hdr.alloc ≠ cfg.cHeap → (s.sweep cfg victims).1.get k = some o) := by
+    (∀ id ∈ (s.sweep cfg victims order).2.1, ∃ o, s.get id = some o ∧ o.hdr.alloc = cfg.cHeap ∧ o.live = true) ∧
+    (∀ k o, s.get k = some o → o.hdr.alloc ≠ cfg.cHeap → (s.sweep cfg victims order).1.get k = some o) := by
   intro s
+  have F := facts_of_sound hs
   have hw : WF cfg s := C19_reachable_wf cfg hs ops
+  obtain ⟨_, hw', _, _, ⟨E, hE⟩, hfresh, _, _, hnon, _⟩ :=
+    collect_spec F s (arrange order (s.sweepVictims victims)) hw (fun v hv => victims_registered hv)
   constructor
   · intro id hid
-    simp only [St.sweep, St.sweepVictims, List.mem_map, List.mem_filter] at hid
-    obtain ⟨p, ⟨hp, _⟩, rfl⟩ := hid
-    exact hw.reg p hp
+    have hid' : id ∈ E := by
+      simp only [St.sweep] at hid
+      rw [drop_freed_of_ext hE] at hid; exact hid
+    have hnd := hw'.once
+    rw [hE] at hnd
+    have hnot : id ∉ s.freed := fun h => (List.nodup_append.mp hnd).2.2 id h id hid' rfl
+    rcases hfresh id (by rw [hE]; exact List.mem_append_right _ hid') with h | ⟨p, hp, e⟩
+    · exact absurd h hnot
+    · obtain ⟨o, hg, hh, hl⟩ := hw.reg p hp
+      exact ⟨o, e ▸ hg, hh, hl⟩
   · intro k o hget hn
     simp only [St.sweep]
-    exact foldl_sweepOne_get _ hw hget hn
+    exact hnon k o hget hn
 
-/-- **released exactly once**: over every history nothing is released twice, everything released was a heap object and
-    is dead afterwards. -/
+/-- **released exactly once**: over every history — nested deletions, rings of Boxes, every pending order, forced and
+    threshold collections included — nothing is released twice, everything released was a heap object and is dead
+    afterwards. -/
 theorem C19_release_once (cfg : Config) (hs : cfg.Sound = true) (ops : List Op) :
     (run cfg St.init ops).freed.Nodup ∧
     ∀ id ∈ (run cfg St.init ops).freed, ∃ o, (run cfg St.init ops).get id = some o ∧ o.hdr.alloc = cfg.cHeap ∧ o.live = false :=
   ⟨(C19_reachable_wf cfg hs ops).once, (C19_reachable_wf cfg hs ops).freed⟩
 
-/-- **a heap object deleted once is released once**: `del` of a live registered object in a reachable state removes it
-    from the registry, releases its block (one new entry in the release log) and raises nothing; by `C19_release_once`
-    it can never be released again. -/
-theorem C19_del_releases_registered (cfg : Config) (hs : cfg.Sound = true) (ops : List Op) (id : Nat) (o : Obj)
-    (hget : (run cfg St.init ops).get id = some o) (hreg : (run cfg St.init ops).isReg id = true) :
+/-- **a collection releases every one of its victims, exactly once, and never touches a released block** (`ub`): in
+    every reachable state, for every set of victims and every layout of the registry — owner before owned, owned before
+    owner, rings, a Box that owns itself, victims deleted by the destructor of another victim while they wait on the
+    pending list — the run raises nothing, each victim is among the blocks it released, that list has no repetition and
+    nothing in it had been released before; afterwards no victim is registered and the pending list is empty.
+    The same function is the forced collection, the threshold collection of `GC_Set` and (`C19_teardown_releases_once`)
+    the teardown. -/
+theorem C19_sweep_releases_each_victim_once (cfg : Config) (hs : cfg.Sound = true) (ops : List Op) (victims order : List Nat) :
     let s := run cfg St.init ops
-    (freeObj cfg s .del id o).2 = .ok ∧ (freeObj cfg s .del id o).1.freed = s.freed ++ [id] ∧
+    let r := s.sweep cfg victims order
+    r.2.2 = .ok ∧ (∀ v ∈ s.sweepVictims victims, v ∈ r.2.1) ∧ r.2.1.Nodup ∧ (∀ e ∈ r.2.1, e ∉ s.freed) ∧
+      (∀ v ∈ s.sweepVictims victims, r.1.isReg v = false) ∧ NoPend r.1 ∧ r.1.freed = s.freed ++ r.2.1 := by
+  intro s r
+  have F := facts_of_sound hs
+  have hw : WF cfg s := C19_reachable_wf cfg hs ops
+  obtain ⟨hok, hw', hnp', hall, ⟨E, hE⟩, _, _, _, _, _⟩ :=
+    collect_spec F s (arrange order (s.sweepVictims victims)) hw (fun v hv => victims_registered hv)
+  have hr21 : r.2.1 = E := by
+    show (s.collect cfg _).1.freed.drop s.freed.length = E
+    exact drop_freed_of_ext hE
+  have hnd := hw'.once
+  rw [hE] at hnd
+  obtain ⟨_, hndE, hdisj⟩ := List.nodup_append.mp hnd
+  have hin : ∀ v ∈ s.sweepVictims victims, v ∈ E := by
+    intro v hv
+    have hv' := hall v ((mem_arrange order _ v).mpr hv)
+    rw [hE] at hv'
+    rcases List.mem_append.mp hv' with h | h
+    · obtain ⟨p, hp, e⟩ := mem_sweepVictims hv
+      obtain ⟨o, hg, _, hl⟩ := hw.reg p hp
+      obtain ⟨o', hg', _, hl'⟩ := hw.freed v h
+      rw [e] at hg; rw [hg] at hg'; cases hg'; rw [hl] at hl'; cases hl'
+    · exact h
+  refine ⟨hok, ?_, ?_, ?_, ?_, hnp', ?_⟩
+  · intro v hv; rw [hr21]; exact hin v hv
+  · rw [hr21]; exact hndE
+  · intro e he hes; rw [hr21] at he; exact hdisj e hes e he rfl
+  · intro v hv
+    cases hreg : r.1.isReg v with
+    | false => rfl
+    | true =>
+      obtain ⟨p, hp, e⟩ := isReg_true hreg
+      obtain ⟨o, hg, _, hl⟩ := hw'.reg p hp
+      obtain ⟨o', hg', _, hl'⟩ := hw'.freed v (by rw [hE]; exact List.mem_append_right _ (hin v hv))
+      rw [e] at hg
+      have : (s.collect cfg (arrange order (s.sweepVictims victims))).1.get v = some o := hg
+      rw [this] at hg'; cases hg'; rw [hl] at hl'; cases hl'
+  · show (s.collect cfg _).1.freed = s.freed ++ r.2.1
+    rw [hr21]; exact hE
+
+/-- **the teardown (`GC_Del`, from `Cello_Exit` at program exit) releases every collector-managed object that is not a
+    root, exactly once**, whatever the layout of the registry and whatever the destructors delete among themselves. -/
+theorem C19_teardown_releases_once (cfg : Config) (hs : cfg.Sound = true) (ops : List Op) (order : List Nat) :
+    let s := run cfg St.init ops
+    let r := s.teardown cfg order
+    r.2.2 = .ok ∧ (∀ p ∈ s.reg, p.2 = false → p.1 ∈ r.2.1) ∧ r.2.1.Nodup ∧ (∀ e ∈ r.2.1, e ∉ s.freed) ∧
+      (∀ e ∈ r.2.1, ∃ o, s.get e = some o ∧ o.hdr.alloc = cfg.cHeap ∧ o.live = true) := by
+  intro s r
+  have F := facts_of_sound hs
+  have hw : WF cfg s := C19_reachable_wf cfg hs ops
+  obtain ⟨hok, hw', _, hall, ⟨E, hE⟩, hfresh, _, _, _, _⟩ :=
+    collect_spec F s (arrange order s.exitVictims) hw (fun v hv => mem_exitVictims ((mem_arrange order _ v).mp hv))
+  have hr21 : r.2.1 = E := by
+    show (s.collect cfg _).1.freed.drop s.freed.length = E
+    exact drop_freed_of_ext hE
+  have hnd := hw'.once
+  rw [hE] at hnd
+  obtain ⟨_, hndE, hdisj⟩ := List.nodup_append.mp hnd
+  refine ⟨hok, ?_, by rw [hr21]; exact hndE, ?_, ?_⟩
+  · intro p hp hroot
+    have hv : p.1 ∈ s.exitVictims := by
+      simp only [St.exitVictims, List.mem_map, List.mem_filter]
+      exact ⟨p, ⟨hp, by simp [hroot]⟩, rfl⟩
+    have hv' := hall p.1 ((mem_arrange order _ p.1).mpr hv)
+    rw [hE] at hv'
+    rw [hr21]
+    rcases List.mem_append.mp hv' with h | h
+    · obtain ⟨o, hg, _, hl⟩ := hw.reg p hp
+      obtain ⟨o', hg', _, hl'⟩ := hw.freed p.1 h
+      rw [hg] at hg'; cases hg'; rw [hl] at hl'; cases hl'
+    · exact h
+  · intro e he hes; rw [hr21] at he; exact hdisj e hes e he rfl
+  · intro e he
+    rw [hr21] at he
+    rcases hfresh e (by rw [hE]; exact List.mem_append_right _ he) with h | ⟨p, hp, e'⟩
+    · exact absurd rfl (hdisj e h e he)
+    · obtain ⟨o, hg, hh, hl⟩ := hw.reg p hp
+      exact ⟨o, e' ▸ hg, hh, hl⟩
+
+/-- **a heap object deleted once is released once**: `del` of a live registered object in a reachable state raises
+    nothing, removes it from the registry and releases its block — together with what its destructor deletes in turn, if
+    it is a Box (the log only grows, and by `C19_release_once` without repetition); it can never be released again. -/
+theorem C19_del_releases_registered (cfg : Config) (hs : cfg.Sound = true) (ops : List Op) (id : Nat) (o : Obj)
+    (_hget : (run cfg St.init ops).get id = some o) (hreg : (run cfg St.init ops).isReg id = true) :
+    let s := run cfg St.init ops
+    (freeObj cfg s .del id o).2 = .ok ∧ id ∈ (freeObj cfg s .del id o).1.freed ∧ id ∉ s.freed ∧
+      (∃ E, (freeObj cfg s .del id o).1.freed = s.freed ++ E) ∧ (freeObj cfg s .del id o).1.freed.Nodup ∧
       (freeObj cfg s .del id o).1.isReg id = false := by
   intro s
   have F := facts_of_sound hs
   have hw : WF cfg s := C19_reachable_wf cfg hs ops
+  have hnp : NoPend s := C19_reachable_no_pending cfg hs ops
   obtain ⟨p, hp, hpid⟩ := isReg_true hreg
-  obtain ⟨o1, hget1, hheap, hlive⟩ := hw.reg p hp
-  rw [hpid] at hget1
-  have ho : o1 = o := by rw [hget] at hget1; cases hget1; rfl
-  subst ho
-  obtain ⟨_, _, _, hsh, _, _⟩ := Guard.protects_iff.mp F.sDel
-  obtain ⟨_, _, _, hth, _, _⟩ := Guard.protects_iff.mp F.tDel
-  have hd : (destructBody cfg o1.hdr o1.body).2 = .ok := by
-    unfold destructBody
-    rw [hheap]
-    repeat' split
-    all_goals simp_all
-  have hunreg : (s.unreg id).isReg id = false := by
-    simp [St.isReg, St.unreg, List.any_filter]
-  have hreg' : s.isReg id = true := hreg
-  simp only [freeObj, F.delViaCollector, if_true, hreg']
-  cases hdb : destructBody cfg o1.hdr o1.body with
-  | mk b out =>
-    rw [hdb] at hd
-    simp only at hd
-    subst hd
-    simp only [dealloc, hheap, F.refHeap, if_true]
-    refine ⟨by trivial, by rfl, ?_⟩
-    simpa [St.isReg, St.release, St.updBody] using hunreg
+  have hl : Listed s id := Or.inr ⟨p, hp, hpid⟩
+  have hfo : freeObj cfg s .del id o = gcRem (finalise (fuelFor s) cfg) cfg s id := by
+    simp only [freeObj, F.delViaCollector, if_true]
+  rw [hfo]
+  have hs' := gcRem_finalise_spec F (fuelFor s) s id hw (pendOK_of_noPend hnp) (by simp only [fuelFor]; omega)
+  refine ⟨hs'.ok, hs'.released hl, ?_, hs'.casc.freedExt, hs'.wf.once, ?_⟩
+  · intro h
+    obtain ⟨o1, hg1, _, hl1⟩ := hw.reg p hp
+    obtain ⟨o2, hg2, _, hl2⟩ := hw.freed id h
+    rw [hpid] at hg1; rw [hg1] at hg2; cases hg2; rw [hl1] at hl2; cases hl2
+  · cases hreg' : (gcRem (finalise (fuelFor s) cfg) cfg s id).1.isReg id with
+    | false => rfl
+    | true =>
+      obtain ⟨q, hq, e⟩ := isReg_true hreg'
+      obtain ⟨o1, hg1, _, hl1⟩ := hs'.wf.reg q hq
+      obtain ⟨o2, hg2, _, hl2⟩ := hs'.wf.freed id (hs'.released hl)
+      rw [e] at hg1; rw [hg1] at hg2; cases hg2; rw [hl1] at hl2; cases hl2
 
 /-- **a refused release changes nothing at all, for all histories**: in every reachable state, `dealloc`, `dealloc_raw`,
     `dealloc_root`, `del` or `del_root` applied to a live object whose class is static, stack or data returns the very same
@@ -470,6 +589,7 @@ theorem C19_step_release_refused_unchanged (cfg : Config) (hs : cfg.Sound = true
     (stepFree cfg (run cfg St.init ops) f (.obj id)).1 = run cfg St.init ops := by
   have F := facts_of_sound hs
   have hw : WF cfg (run cfg St.init ops) := C19_reachable_wf cfg hs ops
+  have hnp : NoPend (run cfg St.init ops) := C19_reachable_no_pending cfg hs ops
   generalize run cfg St.init ops = s at *
   have hnh : o.hdr.alloc ≠ cfg.cHeap := by
     rcases hcls with h | h | h <;> rw [h]
@@ -484,12 +604,13 @@ theorem C19_step_release_refused_unchanged (cfg : Config) (hs : cfg.Sound = true
       obtain ⟨o1, hget1, hheap, _⟩ := hw.reg p hp
       rw [hpid, hget] at hget1; cases hget1; exact absurd hheap hnh
   have hd := (C19_dealloc_frees_iff_heap cfg hs s id o).2 hcls
+  have hc : some id ∉ s.pending := hnp id
   unfold stepFree
   simp only [Target.id, hget, hlive, Bool.not_true, Bool.false_eq_true, if_false, hnr, Bool.and_false]
   repeat' split
   all_goals first
     | rfl
-    | (cases f <;> simp_all [freeObj, F.delViaCollector])
+    | (cases f <;> simp_all [freeObj, F.delViaCollector, gcRem])
 
 /-- **a refused in-place operation changes nothing, for all histories**: in every reachable state a reallocating
     operation (everything but String's in-place `rem`) applied to a live stack or static String or Tuple raises, and the
@@ -611,6 +732,29 @@ theorem C19_del_of_stack_object_raises_refuted :
     freeElem Config.current .del { hdr := headerInit Config.current .int Config.current.bStack, cap := 8, val := .int 7 } =
       ({ hdr := headerInit Config.current .int Config.current.bStack, cap := 8, val := .int 7 }, .ok) := by decide
 
+/-- two registered Boxes that own each other -/
+def ringOps : List Op := [.make 0 .alloc (.box none), .make 1 .alloc (.box none), .own 0 (some 1), .own 1 (some 0)]
+
+/-- **the order of the two statements in GC_Sweep's release loop is what the property rests on**: with
+    `dealloc(destruct(item))` ahead of `gc->freelist[i] = NULL` (`swClear := .after`, everything else as in the source) the
+    sweep of a ring of two Boxes finalises the first Box a second time from the destructor of the second — while its own
+    destructor is still running — and then touches the released block (`ub`); with the order the source has, the same sweep
+    releases each Box once, under both layouts of the registry, and so does the teardown.  (The translator reads the order
+    from the source on every run: `C19_collector_unlists_before_finalising`, `C19_current_source_sound`.) -/
+theorem C19_late_clear_refuted :
+    ((run { Config.current with swClear := When.after } St.init ringOps).sweep
+        { Config.current with swClear := When.after } [0, 1] []).2 = ([0, 1], .ub) ∧
+    ((run Config.current St.init ringOps).sweep Config.current [0, 1] []).2 = ([1, 0], .ok) ∧
+    ((run Config.current St.init ringOps).sweep Config.current [0, 1] [1]).2 = ([0, 1], .ok) ∧
+    ((run Config.current St.init ringOps).teardown Config.current [1]).2 = ([0, 1], .ok) := by decide
+
+/-- the same for GC_Rem_Ptr: if a pending object were struck off the list only after its finalisation, a ring of two
+    Boxes reached from a third would be finalised for ever (the model runs out of fuel: `ub`) -/
+theorem C19_late_strike_refuted :
+    ((run { Config.current with remPendClear := When.after } St.init
+        (ringOps ++ [.make 2 .alloc (.box none), .own 2 (some 0)])).sweep
+        { Config.current with remPendClear := When.after } [0, 1, 2] [2]).2.2 = .ub := by decide
+
 /-! ## F. non-vacuity: concrete histories reach the states the theorems speak about -/
 
 /-- a history with a heap Int, a stack String, an Array of three Ints and a Table; the registry and release log after a
@@ -619,7 +763,7 @@ example :
     let ops : List Op :=
       [.make 0 .new (.int 5), .make 1 .stack (.str "hello"), .make 2 .new (.seq .array .int [.int 1, .int 2, .int 3]),
        .make 3 .newRoot (.map .table .int .string [(.int 1, .str "x")]), .free .dealloc (.obj 1), .free .del (.obj 0),
-       .inplace (.push 0) (.obj 2), .sweep [1, 2, 3]]
+       .inplace (.push 0) (.obj 2), .sweep [1, 2, 3] []]
     let s := run Config.current St.init ops
     s.freed = [0, 2] ∧ s.reg = [(3, true)] ∧ s.isLive 1 = true ∧
     (s.get 3).map (fun o => o.body.elemAt (.key 3 0)) = some (some { hdr := dataHdr Config.current .int, cap := 8, val := .int 1 }) := by
@@ -629,5 +773,20 @@ example :
 example :
     tupleOp Config.current (run Config.current St.init [.make 0 .new (.int 1), .make 1 .new (.int 2)]) Config.current.cStack [0, 1] (.popAt 0)
       = some (.tuple [0, 1], .raised "ValueError") := by decide
+
+/-- nested release in a concrete history: a chain root Box → Box → Int deleted from its head with `del_root` (three
+    blocks, owner last), a Box that owns itself, a Box that owns a stack Int (which survives), a raw Box released by
+    `del_raw` together with the registered String it owns; then a threshold collection of what is left -/
+example :
+    let ops : List Op :=
+      [.make 0 .new (.int 5), .make 1 .alloc (.box none), .own 1 (some 0), .make 2 .allocRoot (.box none), .own 2 (some 1),
+       .free .delRoot (.obj 2),
+       .make 3 .alloc (.box none), .own 3 (some 3), .free .del (.obj 3),
+       .make 4 .stack (.int 7), .make 5 .new (.box (some 4)), .free .del (.obj 5),
+       .make 6 .new (.str "s"), .make 7 .allocRaw (.box none), .own 7 (some 6), .free .delRaw (.obj 7),
+       .make 8 .alloc (.box none), .make 9 .alloc (.box none), .own 8 (some 9), .own 9 (some 8), .thr [8, 9] [9]]
+    let s := run Config.current St.init ops
+    s.freed = [0, 1, 2, 3, 5, 6, 7, 8, 9] ∧ s.reg = [] ∧ s.pending = [] ∧ s.isLive 4 = true := by
+  decide
 
 end Cello.Hdr
